@@ -37,6 +37,8 @@ var prelude = []string{
 	"(declare-sort Iface 0)",
 	"(declare-sort Unit 0)",
 	"(declare-datatypes ((Slice 0)) (((mk_slice (sl_arr Int) (sl_off Int) (sl_len Int) (sl_cap Int)))))",
+	"(declare-fun at (Int Int) Int)",
+	"(assert (forall ((o Int) (i Int)) (! (= (at o i) (+ o i)) :pattern ((at o i)))))",
 	"(declare-fun slen (Str) Int)",
 	"(declare-fun sat (Str Int) Int)",
 	"(declare-fun ssub (Str Int Int) Str)",
